@@ -13,6 +13,7 @@ struct Profile {
 	// family weights
 	int w_ctor = 10, w_dtor = 3, w_assign = 10, w_move = 5, w_swap = 3, w_resize = 8, w_viewwrite = 10, w_read = 4, w_alloc_forms = 3, w_conv = 3, w_il = 3, w_save = 0, w_load = 0;
 	bool faults_stream = false;
+	bool allow_overlap = false;  // generate overlapping same-root view assignments (differential C11 runs)
 	int fault_free_pct = 40;   // percentage of runs without any fault
 	bool faults_alloc = true, faults_elem = true;
 	int  max_arenas = 3;
@@ -29,6 +30,7 @@ inline Profile profile_by_name(std::string const& n) {
 	else if(n == "fault") { p.fault_free_pct = 0; }
 	else if(n == "alloc") { p.w_alloc_forms = 14; p.w_move = 12; p.w_swap = 6; p.w_assign = 12; p.w_viewwrite = 2; p.w_resize = 5; p.max_arenas = 4; p.fault_free_pct = 75; p.faults_elem = false; }
 	else if(n == "nofault") { p.fault_free_pct = 100; }
+	else if(n == "c11") { p.fault_free_pct = 100; p.allow_overlap = true; p.w_viewwrite = 18; }
 	else if(n == "ser") { p.w_save = 14; p.w_load = 18; p.w_viewwrite = 5; p.w_resize = 6; p.w_ctor = 12; p.w_conv = 1; p.w_il = 1; p.faults_stream = true; p.fault_free_pct = 60; }
 	else if(n == "serfault") { p.w_save = 14; p.w_load = 18; p.w_viewwrite = 5; p.w_resize = 6; p.w_ctor = 12; p.w_conv = 1; p.w_il = 1; p.faults_stream = true; p.fault_free_pct = 0; }
 	else if(n == "sernofault") { p.w_save = 14; p.w_load = 18; p.w_viewwrite = 5; p.w_resize = 6; p.w_ctor = 12; p.w_conv = 1; p.w_il = 1; p.fault_free_pct = 100; }
@@ -392,9 +394,11 @@ struct Gen {
 				o.b = alive_slot(o.db);
 				MView sv;
 				bool  found = false;
+				if(P.allow_overlap && rng.chance(1, 3)) { o.db = D; o.b = o.a; }  // same root: overlapping operands become likely
 				if(rng.chance(1, 2)) found = fit_view(o.db, o.b, dv, o.cb, sv);
 				if(!found && !find_view(o.db, o.b, o.kind == O_EASSIGN ? -1 : dv.D, &dv, o.kind == O_EASSIGN, o.cb, sv, 20)) continue;
-				o.var = o.kind == O_VASSIGN_VIEW ? rng.below(4) : rng.below(2);
+				o.var = o.kind == O_VASSIGN_VIEW ? rng.below(6) : rng.below(2);
+				if(P.allow_overlap && o.kind != O_VSWAP && rng.chance(1, 2)) { o.ov = 1; o.var = 0; }
 				break;
 			}
 			case O_VASSIGN_ARRAY: {
